@@ -64,6 +64,21 @@ func (vc *VC) lookupLocal(name string, pos token.Pos) types.Object {
 	}
 	// loop-scoped variables (declared by the loop statement itself) are
 	// visible inside the loop: search inner scopes that start at pos too
+	// the scope opened by the statement at pos itself (loop variables declared
+	// in a for/range header are visible to the loop's invariants)
+	if sc.Pos() == pos {
+		if o := sc.Lookup(name); o != nil {
+			return o
+		}
+	}
+	for i := 0; i < sc.NumChildren(); i++ {
+		c := sc.Child(i)
+		if c.Pos() <= pos && pos <= c.End() && c.Pos() >= pos {
+			if o := c.Lookup(name); o != nil {
+				return o
+			}
+		}
+	}
 	_, obj := sc.LookupParent(name, pos)
 	if obj == nil {
 		for i := 0; i < sc.NumChildren(); i++ {
